@@ -69,6 +69,13 @@ def run(tier, seed, replay=None):
             text = text.replace("endtable;", "cCollide = glyphid(2..%d) {collision.flags = 1};\nendtable;" % (prog.nglyphs - 1), 1)
             text += "table(pos) pass(1) {CollisionFix = %d} endpass; endtable;\n" % (1 + ci % 3)
             prog.raw_gdl = text
+        if ci % 4 == 2 and not collision:
+            # justification glyph attributes with values beyond 16 bits (stored as a low and a high word) and a breakweight:
+            # attributes that the writers convert for the table version on the way out - also when a debug listing is made first
+            text = prog.raw_gdl if getattr(prog, "raw_gdl", None) else prog.gdl()
+            vals = [trng.choice([40000, 65535, 65536, 70000, 110000, 98304 + trng.randrange(32768), 0x18000, 0x2FFFF]) for _ in range(3)]
+            text = text.replace("endtable;", "cJust1 = glyphid(2) {justify.stretch = %dm; breakweight = 20};\ncJust2 = glyphid(3) {justify.stretch = %dm; justify.shrink = %dm};\nendtable;" % (vals[0], vals[1], vals[2] % 30000), 1)   # (shrink has no high word: at most 32767)
+            prog.raw_gdl = text
         gen.write_case(prog, d)
         fonts = {}
         for v in REQ:
